@@ -1,4 +1,5 @@
 import Proofs.Bits
+import Proofs.Search
 /-!
 # C20 — Core lookup primitives behave as exact maps and arrays  (bit-packing clause)
 
@@ -97,5 +98,263 @@ example : FieldZero 0xFF00FF 8 8 ∧ (0xAB : Nat) < 2^8 ∧ readInt57 (writeInt5
   intro j hj
   have : j = 0 ∨ j = 1 ∨ j = 2 ∨ j = 3 ∨ j = 4 ∨ j = 5 ∨ j = 6 ∨ j = 7 := by omega
   rcases this with h|h|h|h|h|h|h|h <;> subst h <;> decide
+
+/-! ### 32-bit window: `ReadInt25` / `WriteInt25` (width ≤ 25) -/
+
+theorem read25_eq (m off len : Nat) (h : len ≤ 25) :
+    readInt25 m off len = (m >>> off) % 2^len := by
+  apply Nat.eq_of_testBit_eq
+  intro j
+  rw [testBit_readInt25, Nat.testBit_mod_two_pow, Nat.testBit_shiftRight]
+  by_cases hj : j < len
+  · have : off % 8 + j < 32 := by omega
+    simp [hj, this]
+  · simp [hj]
+
+theorem write25_bits (m off len v : Nat) (hlen : len ≤ 25) (hv : v < 2^len) (i : Nat) :
+    (writeInt25 m off len v).testBit i =
+      (m.testBit i || (decide (off ≤ i) && decide (i < off + len) && v.testBit (i - off))) := by
+  rw [testBit_writeInt25]
+  by_cases h1 : off ≤ i
+  · by_cases h2 : i < off + len
+    · have a : 8 * (off / 8) ≤ i := by omega
+      have b : i - 8 * (off / 8) < 32 := by omega
+      have c : off % 8 ≤ i - 8 * (off / 8) := by omega
+      have d : i - 8 * (off / 8) - off % 8 = i - off := by omega
+      simp [h1, h2, a, b, c, d]
+    · have hz : v.testBit (i - off) = false := testBit_lt_of_lt_two_pow hv (by omega)
+      by_cases a : 8 * (off / 8) ≤ i
+      · by_cases c : off % 8 ≤ i - 8 * (off / 8)
+        · have d : i - 8 * (off / 8) - off % 8 = i - off := by omega
+          simp [h1, h2, a, c, d, hz]
+        · simp [h1, h2, a, c]
+      · simp [h1, h2, a]
+  · by_cases a : 8 * (off / 8) ≤ i
+    · have c : ¬ off % 8 ≤ i - 8 * (off / 8) := by omega
+      simp [h1, a, c]
+    · simp [h1, a]
+
+theorem write25_frame (m off len v : Nat) (hlen : len ≤ 25) (hv : v < 2^len) (i : Nat)
+    (hi : i < off ∨ off + len ≤ i) :
+    (writeInt25 m off len v).testBit i = m.testBit i := by
+  rw [write25_bits m off len v hlen hv]
+  rcases hi with hi | hi
+  · have : ¬ off ≤ i := by omega
+    simp [this]
+  · have : ¬ i < off + len := by omega
+    simp [this]
+
+theorem write25_read (m off len v : Nat) (hlen : len ≤ 25) (hv : v < 2^len)
+    (hz : FieldZero m off len) :
+    readInt25 (writeInt25 m off len v) off len = v := by
+  rw [read25_eq _ _ _ hlen]
+  apply Nat.eq_of_testBit_eq
+  intro j
+  rw [Nat.testBit_mod_two_pow, Nat.testBit_shiftRight, write25_bits m off len v hlen hv]
+  by_cases hj : j < len
+  · have a : off ≤ off + j := by omega
+    have b : off + j < off + len := by omega
+    have c : off + j - off = j := by omega
+    simp [hj, hz j hj, a, b, c]
+  · have : v.testBit j = false := testBit_lt_of_lt_two_pow hv (by omega)
+    simp [hj, this]
+
+/-! ### floats: 32 stored bits, and 31 stored bits with the sign forced on -/
+
+theorem float32_write_read (m off bits : Nat) (hb : bits < 2^32) (hz : FieldZero m off 32) :
+    readFloat32 (writeFloat32 m off bits) off = bits := by
+  apply Nat.eq_of_testBit_eq
+  intro j
+  rw [testBit_readFloat32]
+  unfold writeFloat32
+  rw [write_bits m off 32 bits (by omega) hb]
+  by_cases hj : j < 32
+  · have a : off ≤ off + j := by omega
+    have b : off + j < off + 32 := by omega
+    have c : off + j - off = j := by omega
+    simp [hj, hz j hj, a, b, c]
+  · have : bits.testBit j = false := testBit_lt_of_lt_two_pow hb (by omega)
+    simp [hj, this]
+
+theorem float32_write_frame (m off bits : Nat) (hb : bits < 2^32) (i : Nat)
+    (hi : i < off ∨ off + 32 ≤ i) :
+    (writeFloat32 m off bits).testBit i = m.testBit i :=
+  write_frame m off 32 bits (by omega) hb i hi
+
+theorem testBit_kSignBit (j : Nat) : kSignBit.testBit j = decide (j = 31) := by
+  have : kSignBit = 2^31 := by decide
+  rw [this, Nat.testBit_two_pow]
+  by_cases h : j = 31 <;> simp [h, eq_comm]
+
+/-- Whatever the neighbouring field holds, a non-positive float (sign bit set) stored in 31
+bits is read back unchanged; a value with the sign clear comes back with the sign set
+(`+0.0 ↦ -0.0`), which is the documented meaning of "NonPositive". -/
+theorem float31_write_read (m off bits : Nat) (hb : bits < 2^32) (hz : FieldZero m off 31) :
+    readNonPositiveFloat31 (writeNonPositiveFloat31 m off bits) off = bits ||| kSignBit := by
+  apply Nat.eq_of_testBit_eq
+  intro j
+  unfold readNonPositiveFloat31 writeNonPositiveFloat31
+  have h32 := testBit_readFloat32 (writeInt57 m off 31 (bits % 2^32 % 2^31)) off j
+  unfold readFloat32 at h32
+  rw [Nat.testBit_or, h32, Nat.testBit_or, testBit_kSignBit]
+  have hv : bits % 2^32 % 2^31 < 2^31 := Nat.mod_lt _ (by decide)
+  rw [write_bits m off 31 _ (by omega) hv]
+  by_cases hj : j < 31
+  · have a : off ≤ off + j := by omega
+    have b : off + j < off + 31 := by omega
+    have c : off + j - off = j := by omega
+    have d : j < 32 := by omega
+    have e : ¬ j = 31 := by omega
+    have f : (bits % 2^32 % 2^31).testBit j = bits.testBit j := by
+      rw [Nat.testBit_mod_two_pow, Nat.testBit_mod_two_pow]; simp [hj, d]
+    rw [c, f]
+    simp [hz j hj, a, b, d, e]
+  · by_cases h31 : j = 31
+    · simp [h31]
+    · have : bits.testBit j = false := testBit_lt_of_lt_two_pow hb (by omega)
+      have d : ¬ j < 32 := by omega
+      simp [d, h31, this]
+
+/-! ### `RequiredBits` -/
+
+/-- every value up to `maxv` fits in `requiredBits maxv` bits … -/
+theorem required_bits_fits (maxv v : Nat) (hm : maxv < 2^64) (hv : v ≤ maxv) :
+    v < 2^(requiredBits maxv) := by
+  unfold requiredBits
+  by_cases h0 : maxv = 0
+  · subst h0; simp at hv; subst hv; simp
+  · simp only [h0, ↓reduceIte]
+    obtain ⟨a, _, c⟩ := requiredBitsLoop_spec 64 maxv 1 (by omega) hm
+    have : requiredBitsLoop 64 maxv 1 - 1 + 1 = requiredBitsLoop 64 maxv 1 := by omega
+    rw [this] at c
+    omega
+
+/-- … and no smaller width would do (minimality). -/
+theorem required_bits_minimal (maxv : Nat) (hm : maxv < 2^64) (h0 : maxv ≠ 0) :
+    2^(requiredBits maxv - 1) ≤ maxv := by
+  unfold requiredBits
+  simp only [h0, ↓reduceIte]
+  exact (requiredBitsLoop_spec 64 maxv 1 (by omega) hm).2.1
+
+theorem required_bits_le_64 (maxv : Nat) (hm : maxv < 2^64) : requiredBits maxv ≤ 64 := by
+  by_cases h0 : maxv = 0
+  · subst h0; decide
+  · have h := required_bits_minimal maxv hm h0
+    have : 2^(requiredBits maxv - 1) < 2^64 := Nat.lt_of_le_of_lt h hm
+    have := (Nat.pow_lt_pow_iff_right (a := 2) (by omega)).mp this
+    omega
+
+example : requiredBits 255 = 8 ∧ requiredBits 256 = 9 ∧ requiredBits 0 = 0 := by decide
+
+/-! ## Interpolation search (util/sorted_uniform.hh)
+
+"Interpolation search over any sorted array reports a key present exactly when it occurs,
+and terminates, for any value distribution."  The statements quantify over every array
+(function on positions), every key and **every** acceptable pivot; `Pivot32` and `Pivot64`
+are proved acceptable, the latter for every possible floating-point result. -/
+open KV.Search
+
+theorem pivot32_acceptable : PivotOK pivot32 := pivot32_ok
+theorem pivot64_acceptable (f : Nat → Nat → Nat → Nat) : PivotOK (pivot64 f) := pivot64_ok f
+
+/-- `BoundedSortedUniformFind` answers "present" exactly when the key occurs strictly
+between the bounds, and the position it returns holds the key.  `hi - lo` iterations
+suffice (fuel `hi - lo - 1`), so the loop terminates. -/
+theorem bounded_find_correct (a : Nat → Nat) (pivot) (hp : PivotOK pivot) (key fuel lo loV hi hiV : Nat)
+    (hs : SortedIn a lo hi) (hl : loV ≤ key) (hh : key ≤ hiV) (hf : hi - lo ≤ fuel + 1) :
+    ((bfind a pivot key fuel lo loV hi hiV).isSome ↔ ∃ q, lo < q ∧ q < hi ∧ a q = key) ∧
+    (∀ p, bfind a pivot key fuel lo loV hi hiV = some p → a p = key ∧ lo < p ∧ p < hi) := by
+  refine ⟨⟨?_, ?_⟩, fun p h => bfind_sound a pivot key hp fuel lo loV hi hiV p hl hh h⟩
+  · intro h
+    obtain ⟨p, hp'⟩ := Option.isSome_iff_exists.mp h
+    have := bfind_sound a pivot key hp fuel lo loV hi hiV p hl hh hp'
+    exact ⟨p, this.2.1, this.2.2, this.1⟩
+  · intro h
+    obtain ⟨p, hp'⟩ := bfind_complete a pivot key hp fuel lo loV hi hiV hs hl hh hf h
+    simp [hp']
+
+/-- every position the search reads lies strictly inside the bounds (no out-of-range read) -/
+theorem bounded_find_probes_in_range (a : Nat → Nat) (pivot) (hp : PivotOK pivot)
+    (key fuel lo loV hi hiV : Nat) (hl : loV ≤ key) (hh : key ≤ hiV) :
+    ∀ p ∈ probes a pivot key fuel lo loV hi hiV, lo < p ∧ p < hi :=
+  probes_in_range a pivot key hp fuel lo loV hi hiV hl hh
+
+/-- termination: the result does not depend on the fuel once it covers the range -/
+theorem bounded_find_terminates (a : Nat → Nat) (pivot) (hp : PivotOK pivot) (key f1 f2 lo loV hi hiV : Nat)
+    (hl : loV ≤ key) (hh : key ≤ hiV) (h1 : hi - lo ≤ f1 + 1) (h2 : hi - lo ≤ f2 + 1) :
+    bfind a pivot key f1 lo loV hi hiV = bfind a pivot key f2 lo loV hi hiV :=
+  bfind_fuel a pivot key hp f1 f2 lo loV hi hiV hl hh h1 h2
+
+/-- `SortedUniformFind` over `[b, e)`: present exactly when the key occurs. -/
+theorem sorted_uniform_correct (a : Nat → Nat) (pivot) (hp : PivotOK pivot) (key b e : Nat)
+    (hle : b ≤ e) (hs : ∀ i j, b ≤ i → i ≤ j → j < e → a i ≤ a j) :
+    ((sortedUniformFind a pivot key b e).isSome ↔ ∃ q, b ≤ q ∧ q < e ∧ a q = key) ∧
+    (∀ p, sortedUniformFind a pivot key b e = some p → a p = key ∧ b ≤ p ∧ p < e) := by
+  unfold sortedUniformFind
+  by_cases hbe : b = e
+  · subst hbe
+    simp only [↓reduceIte]
+    refine ⟨⟨by simp, fun ⟨q, h1, h2, _⟩ => by omega⟩, by simp⟩
+  · simp only [hbe, ↓reduceIte]
+    have hlt : b < e := by omega
+    by_cases h1 : key ≤ a b
+    · simp only [h1, ↓reduceIte]
+      by_cases h2 : key = a b
+      · simp only [h2, ↓reduceIte]
+        refine ⟨⟨fun _ => ⟨b, by omega, hlt, rfl⟩, by simp⟩, ?_⟩
+        intro p h; injection h with h; subst h; exact ⟨rfl, by omega, hlt⟩
+      · simp only [h2, ↓reduceIte]
+        refine ⟨⟨by simp, ?_⟩, by simp⟩
+        intro ⟨q, h3, h4, h5⟩
+        have := hs b q (by omega) h3 h4
+        omega
+    · simp only [h1, ↓reduceIte]
+      by_cases h3 : key ≥ a (e - 1)
+      · simp only [h3, ↓reduceIte]
+        by_cases h4 : key = a (e - 1)
+        · simp only [h4, ↓reduceIte]
+          refine ⟨⟨fun _ => ⟨e - 1, by omega, by omega, rfl⟩, by simp⟩, ?_⟩
+          intro p h; injection h with h; subst h; exact ⟨rfl, by omega, by omega⟩
+        · simp only [h4, ↓reduceIte]
+          refine ⟨⟨by simp, ?_⟩, by simp⟩
+          intro ⟨q, h5, h6, h7⟩
+          have := hs q (e - 1) h5 (by omega) (by omega)
+          omega
+      · simp only [h3, ↓reduceIte]
+        have hsi : SortedIn a b (e - 1) := fun i j hi hij hj => hs i j (by omega) hij (by omega)
+        have core := bounded_find_correct a pivot hp key (e - 1 - b) b (a b) (e - 1) (a (e - 1)) hsi
+          (by omega) (by omega) (by omega)
+        refine ⟨⟨fun h => ?_, fun ⟨q, h5, h6, h7⟩ => ?_⟩, fun p h => ?_⟩
+        · obtain ⟨q, h5, h6, h7⟩ := core.1.mp h
+          exact ⟨q, by omega, by omega, h7⟩
+        · apply core.1.mpr
+          refine ⟨q, ?_, ?_, h7⟩
+          · rcases Nat.lt_or_ge b q with h | h
+            · exact h
+            · have : q = b := by omega
+              subst this; omega
+          · rcases Nat.lt_or_ge q (e - 1) with h | h
+            · exact h
+            · have : q = e - 1 := by omega
+              subst this; omega
+        · have := core.2 p h; omega
+
+/-- `BinaryFind` over `[b, e)` with `e - b` iterations at most. -/
+theorem binary_find_correct (a : Nat → Nat) (key fuel b e : Nat)
+    (hs : ∀ i j, b ≤ i → i ≤ j → j < e → a i ≤ a j) (hf : e - b ≤ fuel) :
+    ((binaryFind a key fuel b e).isSome ↔ ∃ q, b ≤ q ∧ q < e ∧ a q = key) ∧
+    (∀ p, binaryFind a key fuel b e = some p → a p = key ∧ b ≤ p ∧ p < e) := by
+  refine ⟨⟨?_, ?_⟩, fun p h => binaryFind_sound a key fuel b e p h⟩
+  · intro h
+    obtain ⟨p, hp'⟩ := Option.isSome_iff_exists.mp h
+    have := binaryFind_sound a key fuel b e p hp'
+    exact ⟨p, this.2.1, this.2.2, this.1⟩
+  · intro h
+    obtain ⟨p, hp'⟩ := binaryFind_complete a key fuel b e hs hf h
+    simp [hp']
+
+/-- non-vacuity: a two-valued array with duplicates, probed through `Pivot32` -/
+example : sortedUniformFind (fun i => if i < 3 then 7 else if i < 5 then 8 else 9) pivot32 8 0 7 = some 4 ∧
+          sortedUniformFind (fun i => if i < 3 then 7 else 9) pivot32 8 0 6 = none := by decide
 
 end KV.C20
